@@ -196,6 +196,16 @@ Proof.
   destruct (r_setting r); try congruence; destruct (b_rw (r_backend r)); reflexivity.
 Qed.
 
+Corollary wire_path_exact_bytes fx r u t :
+  view_wf u -> r_setting r <> On ->
+  valid_encoded (cfg_add r) = true -> wellformed (cfg_add r) = true ->
+  execute fx r u = Some t ->
+  wire_path t = cfg_add r ++ strip_prefix (cfg_strip r) (u_rawpath u).
+Proof.
+  intros Hwf Hon Hva Hwa He. rewrite (wire_path_exact fx r u t Hwf Hon Hva Hwa He).
+  unfold expected_path, original_path. destruct (r_setting r); congruence.
+Qed.
+
 (** * headers: what the HTTP client is handed, name by name *)
 
 From HV Require Import C15.HeaderLemmas.
@@ -393,16 +403,16 @@ Lemma serve_forwarded fx q pl r tls m uri host hs body :
     body = q_body q.
 Proof.
   unfold serve. destruct (view_url q) as [u|]; [|discriminate].
-  destruct (execute fx r u) as [t|]; [|discriminate].
-  destruct (String.eqb (u_scheme t) "http") eqn:E1; destruct (String.eqb (u_scheme t) "https") eqn:E2; simpl;
-    try discriminate.
-  - apply String.eqb_eq in E1. apply String.eqb_eq in E2. congruence.
-  - destruct (r_up_tls r) eqn:Et; simpl; [discriminate|].
+  destruct (execute fx r u) as [t|] eqn:He; [|discriminate].
+  destruct (String.eqb (u_scheme t) "http") eqn:E1; destruct (String.eqb (u_scheme t) "https") eqn:E2;
+    cbn [orb negb]; try discriminate.
+  - exfalso. apply String.eqb_eq in E1. apply String.eqb_eq in E2. rewrite E1 in E2. discriminate E2.
+  - destruct (r_up_tls r) eqn:Et; cbn [Bool.eqb negb]; [discriminate|].
     destruct (rewrite_request q pl (u_host t)) as [hh h] eqn:Er. intro H. inversion H; subst.
-    exists u, t. apply String.eqb_eq in E1. splits; auto.
-  - destruct (r_up_tls r) eqn:Et; simpl; [|discriminate].
+    exists u, t. apply String.eqb_eq in E1. rewrite Er. splits; auto.
+  - destruct (r_up_tls r) eqn:Et; cbn [Bool.eqb negb]; [|discriminate].
     destruct (rewrite_request q pl (u_host t)) as [hh h] eqn:Er. intro H. inversion H; subst.
-    exists u, t. apply String.eqb_eq in E2. splits; auto.
+    exists u, t. pose proof E2 as E2'. apply String.eqb_eq in E2. rewrite Er. splits; auto.
 Qed.
 
 (** every field the upstream sees, name by name *)
@@ -531,7 +541,7 @@ Theorem decoded_path_preserved b u :
   end.
 Proof.
   unfold create_url. destruct (b_rw b) as [rw|].
-  - intros raw' Hw.
+  - cbv zeta. intro Hw.
     set (up := {| u_scheme := u_scheme u; u_host := b_host b; u_path := u_path u;
                   u_rawpath := u_rawpath u; u_query := u_query u |}).
     pose proof (rewrite_decoded rw up) as H. cbv zeta in H. rewrite transform_path_eq in H.
@@ -595,3 +605,98 @@ Proof.
   - destruct (is_empty q); reflexivity.
   - reflexivity.
 Qed.
+
+(** * the findings, each with a witness; a non-trivial input without any *)
+
+Definition ex_req (m raw q : string) (hs : list (string * string)) (trusted : bool) : request :=
+  {| q_method := m; q_raw := raw; q_query := q; q_host := "h.example.com"; q_headers := hs; q_body := "body";
+     q_peer := "127.0.0.2"; q_trusted := trusted; q_xfu := None |}.
+Definition ex_rule (st : setting) (rw : option rewriter) : rule :=
+  {| r_setting := st; r_backend := {| b_host := "up:8080"; b_rw := rw |}; r_up_tls := false |}.
+Definition ex_rw (cut add : string) (strip : list string) : option rewriter :=
+  Some {| rw_scheme := ""; rw_cut := cut; rw_add := add; rw_strip_q := strip |}.
+Definition no_pl : pipeline := {| p_headers := []; p_cookies := [] |}.
+
+Definition forwarded_uri (o : outcome) : string :=
+  match o with Forwarded _ _ uri _ _ _ => uri | NotForwarded _ => "" end.
+Definition forwarded_method (o : outcome) : string :=
+  match o with Forwarded _ m _ _ _ _ => m | NotForwarded _ => "" end.
+Definition forwarded_field (k : string) (o : outcome) : list string :=
+  match o with Forwarded _ _ _ _ hs _ => h_values k hs | NotForwarded _ => [] end.
+
+(** C15-F1: `a` is to be removed, the query has a broken escape elsewhere: `a` reaches the upstream *)
+Theorem F1_refuted : exists q pl r,
+  guard_F1 q r = true /\ spec_ok q pl r (serve pinned q pl r) = false /\
+  forwarded_uri (serve pinned q pl r) = "/x?a=1&b=%zz".
+Proof.
+  exists (ex_req "GET" "/x" "a=1&b=%zz" [] false), no_pl, (ex_rule NoDecode (ex_rw "" "" ["a"])).
+  vm_compute. splits; reflexivity.
+Qed.
+
+(** C15-F2: PROPFIND arrives from a trusted peer with X-Forwarded-Method: GET; GET is forwarded *)
+Theorem F2_refuted : exists q pl r,
+  guard_F2 q = true /\ spec_ok q pl r (serve pinned q pl r) = false /\
+  q_method q = "PROPFIND" /\ forwarded_method (serve pinned q pl r) = "GET".
+Proof.
+  exists (ex_req "PROPFIND" "/x" "" [("X-Forwarded-Method", "GET")] true), no_pl, (ex_rule Off None).
+  vm_compute. splits; reflexivity.
+Qed.
+
+(** C15-F3: under `on` an encoded semicolon is decoded on the way *)
+Theorem F3_refuted : exists q pl r,
+  guard_F3 q r = true /\ spec_ok q pl r (serve pinned q pl r) = false /\
+  forwarded_uri (serve pinned q pl r) = "/0%20/;users".
+Proof.
+  exists (ex_req "GET" "/0%20/%3Busers" "" [] false), no_pl, (ex_rule On None).
+  vm_compute. splits; reflexivity.
+Qed.
+
+(** C15-F4: the pipeline's Forwarded header is overwritten *)
+Theorem F4_refuted : exists q pl r,
+  guard_F4 q pl = true /\ spec_ok q pl r (serve pinned q pl r) = false /\
+  forwarded_field "Forwarded" (serve pinned q pl r) = ["for=127.0.0.2;host=h.example.com;proto=http"].
+Proof.
+  exists (ex_req "GET" "/x" "" [] false), {| p_headers := [("Forwarded", "v1")]; p_cookies := [] |}, (ex_rule Off None).
+  vm_compute. splits; reflexivity.
+Qed.
+
+(** C15-F5: a prefix with a blank re-encodes the whole path; one with a broken escape sends everything to / *)
+Theorem F5_refuted :
+  (exists q pl r, guard_F5 r = true /\ spec_ok q pl r (serve pinned q pl r) = false /\
+                  forwarded_uri (serve pinned q pl r) = "/a%20b/x;y") /\
+  (exists q pl r, guard_F5 r = true /\ spec_ok q pl r (serve pinned q pl r) = false /\
+                  forwarded_uri (serve pinned q pl r) = "/").
+Proof.
+  split.
+  - exists (ex_req "GET" "/x%3By" "" [] false), no_pl, (ex_rule NoDecode (ex_rw "" "/a b" [])).
+    vm_compute. splits; reflexivity.
+  - exists (ex_req "GET" "/img" "" [] false), no_pl, (ex_rule NoDecode (ex_rw "" "/%zz" [])).
+    vm_compute. splits; reflexivity.
+Qed.
+
+(** a request that exercises every sentence and none of the guards: escapes of
+    reserved and unreserved bytes, an encoded slash, strip + add prefix, a
+    repeated query parameter to remove, a client header colliding with a pipeline
+    header in another casing, forwarded headers of an untrusted client, cookies *)
+Definition nv_req : request :=
+  {| q_method := "POST"; q_raw := "/api/v1%2Fx/%3Bq%41"; q_query := "a=1&b=%2F&a=3&c";
+     q_host := "h.example.com";
+     q_headers := [("X-USER", "mallory"); ("x-forwarded-method", "DELETE"); ("X-Forwarded-For", "6.6.6.6");
+                   ("Cookie", "c=1"); ("connection", "close, X-Drop"); ("X-Drop", "1"); ("Accept", "*/*")];
+     q_body := "{""a"":1}"; q_peer := "127.0.0.9"; q_trusted := false; q_xfu := None |}.
+Definition nv_pl : pipeline :=
+  {| p_headers := [("x-user", "alice"); ("Authorization", "Bearer t"); ("X-User", "second")];
+     p_cookies := [("sid", "1")] |}.
+Definition nv_rule : rule := ex_rule NoDecode (ex_rw "/api" "/up" ["a"]).
+
+Example nonvacuous :
+  oracle_ok nv_req = true /\
+  guard_F1 nv_req nv_rule = false /\ guard_F2 nv_req = false /\ guard_F3 nv_req nv_rule = false /\
+  guard_F4 nv_req nv_pl = false /\ guard_F5 nv_rule = false /\
+  serve pinned nv_req nv_pl nv_rule =
+    Forwarded false "POST" "/up/v1%2Fx/%3Bq%41?b=%2F&c=" "up:8080"
+      [("Accept", ["*/*"]); ("Accept-Encoding", ["gzip"]); ("Authorization", ["Bearer t"]);
+       ("Cookie", ["c=1; sid=1"]); ("Forwarded", ["for=127.0.0.9;host=h.example.com;proto=http"]);
+       ("X-User", ["alice"])] "{""a"":1}" /\
+  spec_ok nv_req nv_pl nv_rule (serve pinned nv_req nv_pl nv_rule) = true.
+Proof. vm_compute. splits; reflexivity. Qed.
